@@ -24,7 +24,12 @@ def _run_B(seed, verbose=0):
     return outs
 
 
-def c12_fresh(seed, verbose):
+def c12_fresh(seed, verbose, stray=False):
+    if stray:
+        # objects created BEFORE the first PEP of the process (an abandoned bottom-up exploration): they must not leak into it
+        from PEPit import Point, Expression
+        from PEPit.functions import ConvexFunction, SmoothStronglyConvexFunction
+        x, y = Point(), Point(); e = Expression(); f = ConvexFunction(); g = SmoothStronglyConvexFunction(mu=.1, L=1.); f.oracle(x); (x - y) ** 2 <= e
     return dict(outs=_run_B(seed, verbose))
 
 
@@ -46,6 +51,20 @@ def c12_history(n, seed, procs):
             if l.startswith("@@JSON@@"): ref = json.loads(l[8:])["outs"]
         if ref is None:
             fails.append(dict(what="fresh run of program B crashed", oracle="c12_history", input=dict(bseed=bseed), observed=(r.stdout + r.stderr)[-400:], tags=["c12-infra"]))
+            continue
+        if it % 4 == 3:
+            # the same program as the first model of a process in which leaf objects already exist
+            r2 = subprocess.run([sys.executable, "-W", "ignore", os.path.join(HERE, "oracles.py"), "c12_fresh", str(bseed), "0", "2"],
+                                capture_output=True, text=True, env=env)
+            got = None
+            for l in r2.stdout.splitlines():
+                if l.startswith("@@JSON@@"): got = json.loads(l[8:])["outs"]
+            distinct.add((bseed, "stray"))
+            if got != ref:
+                k = next((i for i in range(min(len(got or []), len(ref))) if got[i] != ref[i]), None)
+                fails.append(dict(what="model B, built as the first PEP of a process in which points / expressions / functions had been created before, sends different data than in a fresh interpreter",
+                                  oracle="c12_history", input=dict(bseed=bseed, history=["objects created before the first PEP()"], program=cw.gen_collect(bseed)),
+                                  observed=(got[k][:300] if (got and k is not None) else str(got)[:300]), expected=(ref[k][:300] if k is not None else "length %d" % len(ref)), tags=["c12"]))
             continue
         hist = []
         for k in range(rnd.randint(1, 5)):
@@ -386,7 +405,7 @@ def c08_steps(n, seed, procs):
 
 
 ORACLES = dict(c08_steps=c08_steps, c12_history=c12_history, c13_resolve=c13_resolve, c17_tables=c17_tables,
-               c12_fresh=lambda n, seed, procs: c12_fresh(n, seed))
+               c12_fresh=lambda n, seed, procs: c12_fresh(n, seed, stray=(procs == 2)))
 PARALLEL = {"c13_resolve", "c08_steps"}
 try:
     import oracles4
